@@ -315,7 +315,9 @@ static __attribute__((pure)) long int
 __strf_tot_corr(struct dt_dtdur_s dur)
 {
 	if (dur.durtyp == DT_DURS && dur.tai) {
-		return dur.corr;
+		/* the S slot is a magnitude, the sign is printed separately,
+		 * so return the correction in the direction of the duration */
+		return dur.soft - dur.corr >= 0 ? dur.corr : -dur.corr;
 	}
 	/* otherwise no corrections */
 	return 0;
